@@ -405,6 +405,7 @@ pub fn run_check(id: &str, tier: &str, seed: u64) -> i32 {
         "C20" => run_block_check(id, tier, seed),
         "C17" => run_driver_check(id, tier, seed),
         "C19" => run_c19(id, tier, seed),
+        "C14" => run_c14(id, tier, seed),
         "C06" => run_c06(id, tier, seed),
         "C02" => fe(&[Crashy, Mixed, Reject], &["R02"], n(30_000, 1_500_000), ft),
         "C05" => fe(&[Crashy, Mixed], &["R05"], n(30_000, 1_500_000), ft),
@@ -876,4 +877,67 @@ pub fn run_c06(id: &str, tier: &str, seed: u64) -> i32 {
     } else {
         e
     }
+}
+
+pub fn run_c14(id: &str, tier: &str, seed: u64) -> i32 {
+    use crate::c14::*;
+    let t0 = Instant::now();
+    let thorough = tier == "thorough";
+    install_panic_hook();
+    let scripts = b_scripts();
+    let reps: u64 = if thorough { 12 } else { 1 };
+    let mut items: Vec<(usize, usize, u64)> = vec![];
+    for (si, _) in scripts.iter().enumerate() {
+        for (fi, _) in FREEZE_POINTS.iter().enumerate() {
+            for r in 0..reps {
+                items.push((si, fi, r));
+            }
+        }
+    }
+    let next = AtomicU64::new(0);
+    let total = Mutex::new(C14Stats::default());
+    std::thread::scope(|s| {
+        for _ in 0..threads() {
+            s.spawn(|| {
+                let mut st = C14Stats::default();
+                loop {
+                    let i = next.fetch_add(1, Ordering::Relaxed) as usize;
+                    if i >= items.len() {
+                        break;
+                    }
+                    let (si, fi, r) = items[i];
+                    let rs = mix(mix(seed, hash_str("C14")), (si as u64) << 20 | (fi as u64) << 8 | r);
+                    let res = std::panic::catch_unwind(std::panic::AssertUnwindSafe(|| run_pair(&mut st, &scripts[si].0, &scripts[si].1, FREEZE_POINTS[fi], rs)));
+                    if res.is_err() {
+                        crate::sim::PANICS.with(|p| p.borrow_mut().clear());
+                        st.not_frozen += 1;
+                    }
+                }
+                total.lock().unwrap().merge(st);
+            });
+        }
+    });
+    let st = total.into_inner().unwrap();
+    conclude_simple(
+        Simple {
+            id,
+            tier,
+            seed,
+            level: "exploration",
+            engine: "c14",
+            evaluations: st.pairs,
+            distinct: st.classes.len() as u64,
+            evals: st.evals.iter().map(|(k, v)| (k.to_string(), *v)).collect(),
+            classes: BTreeMap::new(),
+            violations: st.violations,
+            samples: st.samples.iter().map(|s| json!(s)).collect(),
+            rules: vec!["R14a", "R14b", "R14c"],
+            rule_text: "differential: payment B (1-3 HTLCs; funded / partial / rejected; fixed or amountless invoice; every pay outcome; fused or split RPC replies) is run alone and next to a payment A frozen at one of 9 suspension points (each RPC kind of its lifecycle, or its MPP timer) under the same canonical schedule; B's RPC sequence, replies and answers must be identical and its answer times within 25 ms; a case is one (B scenario, freeze point) pair; distinct = distinct (freeze point, B shape, pay outcome) classes in which A was verifiably frozen",
+            extra: json!({"b_calls_compared": st.b_calls_compared, "pairs_where_A_did_not_reach_the_freeze_point": st.not_frozen, "freeze_points": FREEZE_POINTS.iter().map(|f| format!("{}#{}", f.0, f.1)).collect::<Vec<_>>()}),
+            assumptions: vec!["attempt ids and pay labels (wall clock) are abstracted before comparing".into(), "B scenarios are scheduled canonically so that adding A cannot legitimately change B's interleaving".into()],
+            inconclusive: vec![],
+            exhaustive: None,
+        },
+        t0,
+    )
 }
